@@ -82,7 +82,7 @@ fn run(e: i64, bytes: &[u8], extra: &[i64]) -> Vec<i64> {
     21 => { let v = JwtCredentialValidator::with_signature_verifier(AnyVerifier); let jwt = Jwt::new(t.clone()); for ff in [FailFast::FirstError, FailFast::AllErrors] { let _ = v.validate::<CoreDocument, Object>(&jwt, &doc, &JwtCredentialValidationOptions::default(), ff); } let _ = identity_credential::validator::JwtCredentialValidatorUtils::extract_issuer_from_jwt::<CoreDID>(&jwt); }
     22 => { let v = JwtPresentationValidator::with_signature_verifier(AnyVerifier); let jwt = Jwt::new(t.clone()); let _ = v.validate::<CoreDocument, Jwt, Object>(&jwt, &doc, &JwtPresentationValidationOptions::default()); let _ = identity_credential::validator::JwtPresentationValidatorUtils::extract_holder::<CoreDID>(&jwt); }
     23 => { if let Ok(sd) = SdJwt::parse(&t) { let v = SdJwtCredentialValidator::with_signature_verifier(AnyVerifier, SdObjectDecoder::new_with_sha256()); let _ = v.validate_credential::<CoreDocument, Object>(&sd, &doc, &JwtCredentialValidationOptions::default(), FailFast::AllErrors); let _ = v.validate_key_binding_jwt(&sd, &doc, &KeyBindingJWTValidationOptions::default()); sink(sd.presentation()); } }
-    24 => { if let Ok(d) = MethodDigest::unpack(bytes.to_vec()) { sink(d.pack()); } }
+    24 => { return match MethodDigest::unpack(bytes.to_vec()) { Ok(d) => { let mut o = vec![0]; o.extend(d.pack().iter().map(|b| *b as i64)); o } Err(_) => vec![1] }; }
     25 => { if let Ok(m) = VerificationMethod::from_json_slice(bytes) { sink((m.id().to_string(), m.controller().to_string(), m.type_().to_string())); let _ = m.data().public_key_jwk(); let _ = m.data().try_decode(); let _ = MethodDigest::new(&m); let _ = m.to_json(); } }
     26 => { return match IntegrityMetadata::parse(&t) { Ok(i) => vec![0, i.alg().len() as i64, i.digest().len() as i64, i.digest_bytes().len() as i64], Err(_) => vec![1] }; }
     27 => { let (xl, yl) = (extra.first().copied().unwrap_or(32) as usize, extra.get(1).copied().unwrap_or(32) as usize); let crv = if extra.get(2) == Some(&1) { "secp256k1" } else { "P-256" };
